@@ -127,6 +127,9 @@ func closuresByBranch(fn *ssa.Function, predName string) map[bool]*ssa.Function 
 
 func c05() []*Ob {
 	return []*Ob{
+		{Prop: "C05", ID: "C05.10", Engine: "PAIR(two sites)", Floor: 1,
+			Desc:  "the list that is consumed in chunks is sorted: prepareFracs sorts on every success path, or — if it skips the sort when one iteration covers the list — SearchDocs cuts its iterations by the configured size alone. With both relaxed an unsorted list is searched in several chunks and the early-termination test reads the border of the wrong fraction",
+			Check: func(c *Ctx) { chunkedListIsSorted(c) }},
 		{Prop: "C05", ID: "C05.9", Engine: "PAIR(accumulators)", Floor: 3,
 			Desc:  "the borders the fraction list is sorted and cut by are true extrema of the fraction's documents: metaDataCollector.MinMID/MaxMID (also after the duplicate filter) and Info.From/To are running minimum and maximum, each of its own (shared rule with C14.8) — a fraction whose To is below its newest document is searched too late in a descending search, and ids are declared final although it still holds newer ones",
 			Check: func(c *Ctx) { runningExtrema(c) }},
@@ -202,16 +205,22 @@ func c05() []*Ob {
 						c.Violation("prov:storeapi.doSearch:limit", fn.Pos(), "the store no longer searches with limit = req.Size + req.Offset: pages beyond the first would miss documents")
 					}
 				}
+				mergeExact := false // the merged list is already cut to offset + size
 				if fn := c.Fn("(*proxy/search.Ingestor).Search"); fn != nil {
 					merge := CallsIn(fn, Callee("seq.MergeQPRs"))
 					pag := CallsIn(fn, Callee("(*proxy/search.Ingestor).paginateIDs"))
 					if len(merge) == 1 && len(pag) == 1 && Dominates(merge[0].(ssa.Instruction), pag[0].(ssa.Instruction)) {
 						c.Site(pag[0].Pos(), "pagination follows the merge")
 						lim := Arg(merge[0], 2)
-						if bo, ok := lim.(*ssa.BinOp); ok && bo.Op == token.ADD && DerivesFrom(bo, func(v ssa.Value) bool { return ValueIsField(v, "proxy/search.SearchRequest", "Offset") }) && DerivesFrom(bo, func(v ssa.Value) bool { return ValueIsField(v, "proxy/search.SearchRequest", "Size") }) {
+						hasOff := DerivesFrom(lim, func(v ssa.Value) bool { return ValueIsField(v, "proxy/search.SearchRequest", "Offset") })
+						hasSize := DerivesFrom(lim, func(v ssa.Value) bool { return ValueIsField(v, "proxy/search.SearchRequest", "Size") })
+						if bo, ok := lim.(*ssa.BinOp); ok && bo.Op == token.ADD && hasOff && hasSize {
+							mergeExact = true
 							c.Site(merge[0].Pos(), "proxy merge limit = offset + size")
+						} else if hasOff && hasSize {
+							c.Site(merge[0].Pos(), "proxy merge limit is computed from offset and size (the page is cut by paginateIDs)")
 						} else {
-							c.Violation("prov:Ingestor.Search:merge-limit", merge[0].Pos(), "the proxy does not merge with limit = sr.Offset + sr.Size")
+							c.Violation("prov:Ingestor.Search:merge-limit", merge[0].Pos(), "the proxy does not merge with a limit computed from sr.Offset and sr.Size")
 						}
 						okH := DerivesFrom(Arg(merge[0], 3), func(v ssa.Value) bool { return ValueIsField(v, "proxy/search.SearchRequest", "Interval") })
 						okO := DerivesFrom(Arg(merge[0], 4), func(v ssa.Value) bool { return ValueIsField(v, "proxy/search.SearchRequest", "Order") })
@@ -226,23 +235,29 @@ func c05() []*Ob {
 				}
 				if fn := c.Fn("(*proxy/search.Ingestor).paginateIDs"); fn != nil {
 					// ids[offset:] then [:size]
-					n := 0
+					lowOK, sizeCut := false, false
 					for _, b := range fn.Blocks {
 						for _, in := range b.Instrs {
 							if sl, ok := in.(*ssa.Slice); ok {
 								if sl.Low != nil && DerivesFrom(sl.Low, func(v ssa.Value) bool { p, ok := v.(*ssa.Parameter); return ok && ParamName(p) == "offset" }) {
-									n++
+									lowOK = true
 								}
 								if sl.High != nil && DerivesFrom(sl.High, func(v ssa.Value) bool { p, ok := v.(*ssa.Parameter); return ok && ParamName(p) == "size" }) {
-									n++
+									sizeCut = true
 								}
 							}
 						}
 					}
-					if n >= 2 {
+					// the page holds at most size ids: cut here, or already by a merge limited to exactly offset + size
+					switch {
+					case !lowOK:
+						c.Violation("prov:paginateIDs", fn.Pos(), "paginateIDs no longer drops the first offset ids")
+					case sizeCut:
 						c.Site(fn.Pos(), "paginateIDs drops offset ids and keeps size ids")
-					} else {
-						c.Violation("prov:paginateIDs", fn.Pos(), "paginateIDs no longer slices [offset:] and [:size]")
+					case mergeExact:
+						c.Site(fn.Pos(), "paginateIDs drops offset ids; the merged list was cut to offset + size before")
+					default:
+						c.Violation("prov:paginateIDs", fn.Pos(), "a page is cut to size neither by paginateIDs nor by the merge limit (which is not exactly offset + size): the number of ids returned depends on how many shards answered, and consecutive pages repeat documents")
 					}
 				}
 			}},
